@@ -43,7 +43,7 @@ def plan(tier):
     t = 300 if tier == "quick" else 900
     parts = [f"0:{c},1:{d},2:{r},3:{pf},4:{pc}" for c in range(2) for d in range(2) for r in range(3) for pf in range(2) for pc in range(2)
              if tier == "thorough" or not (d == 1 and r == 0)]
-    wparts = ["0:0,1:0", "0:1,1:0"] + [f"0:{d},1:{n},2:{k}" for d in range(2) for n in (1, 2) for k in range(6)]
+    wparts = ["0:0,1:0", "0:1,1:0"] + [f"0:{d},1:{n},2:{k}" for d in range(2) for n in (1, 2) for k in range(7)]
     return [
         CH("exactly_once", "harness.c03", "exactly_once", parts, timeout=t, desc="declaration multiset = public declarations",
            bounds=BOUNDS[tier], stubs=["in-memory FS"], symbolic="publicity/shape flags"),
